@@ -185,8 +185,9 @@ def check_modes(ck):
 
 def check_entry_points(ck):
     """collides / collision_details / near: poses from forward_with_joint_poses of the given robot, right table, right mode"""
-    for name in ('collides', 'collision_details', 'near'):
-        for mode in ((1, 2) if name == 'collides' else (1,)):
+    for name in ('collides', 'collision_details', 'near', 'near/body-without-checks'):
+        nocheck_body = name.endswith('body-without-checks'); name = name.split('/')[0]
+        for mode in ((1, 2) if name == 'collides' else ((2,) if nocheck_body else (1,))):
             eng = ck.engine(unwind=10); install_collections(eng); install_dynkin(eng)
             st = eng.new_state(); table = MapOracle('tbl'); given = MapOracle('given')
             body = make_body(eng, True, True, 1, table, mode=mode)
@@ -201,7 +202,7 @@ def check_entry_points(ck):
             fname = [n for n in eng.bodies if n.startswith('collisions::<impl at') and n.endswith('::' + name) and eng.bodies[n].nargs == len(args) and 'RobotBody' in eng.bodies[n].local_ty.get(1, '')]
             if len(fname) != 1: raise Inconclusive(f'RobotBody::{name}: {len(fname)} candidates')
             res = eng.call_body(st, eng.bodies[fname[0]], args); ck.states += len(res)
-            label = f'RobotBody::{name}[mode={mode}]: '
+            label = f'RobotBody::{name}[mode of the body={mode}{", mode of the table passed=1" if name == "near" else ""}]: '
             case = lambda m=None: dict(clause='entry', method=name, mode=mode)
             if name == 'collides' and mode == 2:
                 ok = all((not isz(o)) and o is False for _, o in res) and not captured
